@@ -256,7 +256,7 @@ func c09R1(c *Ctx, rule string) {
 					okV := strictSum(v)
 					// the very first read failing may report 0 consumed bytes
 					if !okV && rd == reads[0] {
-						if kk, isK := intConst(v); isK && kk == 0 && errIsNilAt(resultValue(r, 3), r) == "nonnil" {
+						if kk, isK := intConst(v); isK && kk == 0 && errIsNilAt(resolve(resultValue(r, 3), env), r) == "nonnil" {
 							okV = true
 						}
 					}
@@ -352,6 +352,9 @@ func c09R1(c *Ctx, rule string) {
 					why = fmt.Sprintf("induction φ(0,i+1)=%v, returns i+1 on success and i on error=%v", ind, retOK)
 				}
 			}
+		}
+		if !ok && rd != nil {
+			ok, why = connReadLineAffine(crl, rd)
 		}
 		c.Check(ok, rule, "connReadLine reads byte i into buf[i:i+1] and reports exactly the bytes consumed", c.atFn(crl), why, "the line reader's count does not equal the bytes it took off the socket: "+why)
 	}
@@ -782,7 +785,7 @@ func c09R5(c *Ctx, rule string) {
 		if call, ok := i.(*ssa.Call); ok {
 			if calleeName(&call.Call) == "(net.Conn).SetReadDeadline" && set == nil {
 				// argument derives from the timeout parameter
-				if strings.Contains(Expr(call.Call.Args[0]), "timeout") {
+				if strings.Contains(Expr(call.Call.Args[0]), "timeout") || (len(rfp.Params) == 3 && valueDependsOn(call.Call.Args[0], rfp.Params[2], 0)) {
 					set = i
 				}
 			}
@@ -794,6 +797,30 @@ func c09R5(c *Ctx, rule string) {
 			deferred = true
 		}
 	})
+	// the reset may also be explicit: every way out of the function after arming passes a SetReadDeadline that does not
+	// depend on the timeout, and no read follows such a reset
+	if !deferred && set != nil {
+		isReset := func(i ssa.Instruction) bool {
+			call, ok := i.(*ssa.Call)
+			return ok && i != set && calleeName(&call.Call) == "(net.Conn).SetReadDeadline" && !(len(rfp.Params) == 3 && valueDependsOn(call.Call.Args[0], rfp.Params[2], 0))
+		}
+		explicit := reachesReturnAvoiding(set, isReset) == nil
+		allInstrs(rfp, func(i ssa.Instruction) {
+			if isReset(i) {
+				if forwardSearch(i, nil, func(j ssa.Instruction) bool {
+					call, ok := j.(*ssa.Call)
+					if !ok {
+						return false
+					}
+					_, isR := readLikeDest(c.P, call)
+					return isR
+				}) != nil {
+					explicit = false
+				}
+			}
+		})
+		deferred = explicit
+	}
 	ok := set != nil && firstRead != nil && instrDominates(set, firstRead) && deferred
 	c.Check(ok, rule, "read deadline armed before the first read and reset on exit", c.atFn(rfp), "conn.SetReadDeadline(now+timeout) dominates the first read; defer conn.SetReadDeadline(zero)", "a silent peer can hold the dispatcher goroutine forever, or the deadline leaks into the relayed connection")
 }
